@@ -194,3 +194,40 @@ Proof.
   repeat (destruct Hin as [<- | Hin]; [vm_compute; repeat split; discriminate|]).
   contradiction.
 Qed.
+
+(* ---- QuantizedTime, duration-generic: the unbounded statement kept as a
+   comment above C10_quanttime_roundtrip_partial, all six clauses.  For EVERY
+   binary64 duration d with 2^-1000 <= d <= 2^1000 (IEEE comparisons, so d is
+   finite and not nan; QuantTimeGeneric.qtime_dmin = 0x1p-1000, qtime_dmax =
+   0x1p1000; the range contains every positive finite F32 value, 2^-149 ..
+   (2-2^-23)*2^127, that an animation header can hold) and every raw of the U16
+   wire type: decode then encode gives back the raw, decode is strictly
+   increasing, raw 0 / 65535 decode to exactly +0.0 / d, and 0.0 / d encode to
+   0 / 65535.  Not a sweep: real-number error analysis of the model's
+   operations (each correctly rounded, relative error <= 2^-53, no under- or
+   overflow in the range; Quant/QuantTime*.v) through Flocq's IEEE754.PrimFloat.
+   Unlike the theorems above this one is NOT closed under the global context:
+   it rests on the standard library's specification of the primitive float and
+   int operations (FloatAxioms, Uint63) and on its real-number axioms; Print
+   Assumptions lists them and harness/props/c10.py TRUSTED names them. *)
+From HV Require Quant.QuantTimeFacts.
+Theorem C10_quanttime_roundtrip_generic : forall d : PrimFloat.float,
+  PrimFloat.leb QuantTimeGeneric.qtime_dmin d = true ->
+  PrimFloat.leb d QuantTimeGeneric.qtime_dmax = true ->
+  (forall r, (0 <= r <= 65535)%Z ->
+     f2q (qtime C10_qtime_step d) (q2f (qtime C10_qtime_step d) r) = Some r) /\
+  (forall r, (0 <= r < 65535)%Z ->
+     fle (q2f (qtime C10_qtime_step d) r) (q2f (qtime C10_qtime_step d) (r + 1)) = true /\
+     flt (q2f (qtime C10_qtime_step d) r) (q2f (qtime C10_qtime_step d) (r + 1)) = true) /\
+  feq_bits (q2f (qtime C10_qtime_step d) 0) PrimFloat.zero = true /\
+  feq_bits (q2f (qtime C10_qtime_step d) 65535) d = true /\
+  f2q (qtime C10_qtime_step d) PrimFloat.zero = Some 0%Z /\
+  f2q (qtime C10_qtime_step d) d = Some 65535%Z.
+Proof. exact QuantTimeFacts.qtime_facts_generic. Qed.
+Print Assumptions C10_quanttime_roundtrip_generic.
+
+(* non-vacuity: a duration of the declared list lies in the range *)
+Example C10_ex_generic_range : exists d, In d C10_durations /\
+  PrimFloat.leb QuantTimeGeneric.qtime_dmin d = true /\
+  PrimFloat.leb d QuantTimeGeneric.qtime_dmax = true.
+Proof. eexists. split; [left; reflexivity | vm_compute; split; reflexivity]. Qed.
